@@ -166,10 +166,12 @@ class Var(Expr):
 
 
 class Lit(Expr):
-    def __init__(self, v, ty):
-        self.v, self.ty = v, ty
+    def __init__(self, v, ty, text=None):
+        self.v, self.ty, self.text = v, ty, text   # text: the spelling in the source (hex, leading zeros, separators)
 
     def src(self):
+        if self.text is not None:
+            return self.text
         if isinstance(self.ty, BoolT):
             return 'true' if self.v else 'false'
         if self.v < 0:
@@ -500,7 +502,8 @@ class Append:
 
 
 class FuncLitLet:
-    """let name := fn(params) -> ret { body };   (a function literal without captures)"""
+    """let name := fn(params) -> ret { body };   the body may use (and assign) variables of the enclosing function:
+    they are captured by reference - the literal and the enclosing function see each other's writes"""
 
     def __init__(self, name, func):
         self.name, self.func = name, func
@@ -664,15 +667,18 @@ class RefEval:
     def dead(self):
         return z3.Or(self.res.panicked, self.res.trapped, self.res.exceeded)
 
-    def call(self, f, args, guard, depth, recv=None):
+    def call(self, f, args, guard, depth, recv=None, cenv=None):
         if depth > self.maxdepth:
             self.res.exceeded = z3.Or(self.res.exceeded, guard)
             return default_val(f.ret) if not isinstance(f.ret, VoidT) else None
-        env = {}
+        env = {} if cenv is None else ScopeEnv(cenv)   # a function literal runs inside the scope that created it
         if f.recv is not None:
             env[f.recv[0]] = recv
         for (n, t), a in zip(f.params, args):
-            env[n] = a
+            if cenv is None:
+                env[n] = a
+            else:
+                env.declare(n, a)
         ctx = {'returned': z3.BoolVal(False), 'ret': None if isinstance(f.ret, VoidT) else default_val(f.ret),
                'guard': guard, 'depth': depth, 'loops': [], 'fn': f}
         self.block(f.body, env, ctx, guard)
@@ -815,7 +821,7 @@ class RefEval:
                 raise Unsupported('append under a symbolic guard')
             arr.elems.append(self.copy(v))
         elif isinstance(s, FuncLitLet):
-            env.declare('fn:' + s.name, s.func)
+            env.declare('fn:' + s.name, Closure(s.func, env))
         elif isinstance(s, Raw):
             raise Unsupported('raw statement has no reference meaning')
         else:
@@ -1080,13 +1086,16 @@ class RefEval:
                 f = env.lookup('fn:' + e.fname)
             except KeyError:
                 f = self.prog.func(e.fname)
+            cenv = None
+            if isinstance(f, Closure):
+                f, cenv = f.func, f.env
             args = []
             for a, (pn, pt) in zip(e.args, f.params):
                 v = self.eval(a, env, ctx, lv)
                 if not isinstance(pt, RefT):
                     v = self.copy(self.deref(v, lv))
                 args.append(v)
-            return self.call(f, args, lv, ctx['depth'] + 1)
+            return self.call(f, args, lv, ctx['depth'] + 1, cenv=cenv)
         if isinstance(e, MethodCall):
             f = [x for x in self.prog.funcs if x.name == e.mname and x.recv is not None][0]
             if isinstance(f.recv[1], RefT):
@@ -1102,6 +1111,11 @@ class RefEval:
         if isinstance(v, RefVal):
             return self.read_path(v.env.get(v.name), v.path, lv)
         return v
+
+
+class Closure:
+    def __init__(self, func, env):
+        self.func, self.env = func, env
 
 
 class _Empty(Exception):
